@@ -14,9 +14,40 @@ theorem setIndex_ok {α : Type} (xs : List α) (i : Int) (v : α) (h0 : 0 ≤ i)
   have : ¬ (i < 0 ∨ (xs.length : Int) ≤ i) := by omega
   simp [this]
 
+theorem cmpOrdered_string (a b : String) : cmpOrdered a b = ordGo (compare a b) := by
+  show cmpOrdered a b = ordGo (compareOfLessAndEq a b)
+  unfold cmpOrdered compareOfLessAndEq
+  by_cases h1 : a < b
+  · simp [h1, ordGo]
+  · by_cases h2 : b < a
+    · have : a ≠ b := fun e => by subst e; exact String.lt_irrefl _ h2
+      simp [h1, h2, this, ordGo]
+    · have : a = b := String.le_antisymm (String.not_lt.mp h2) (String.not_lt.mp h1)
+      simp [h1, this, ordGo, String.lt_irrefl]
+
+theorem cmpOrdered_int (a b : Int) : cmpOrdered a b = ordGo (compare a b) := by
+  unfold cmpOrdered
+  rcases Int.lt_trichotomy a b with h | h | h
+  · simp [h, Int.compare_eq_lt.mpr h, ordGo]
+  · subst h; simp [ordGo]
+  · have h1 : ¬ a < b := by omega
+    simp [h, h1, Int.compare_eq_gt.mpr h, ordGo]
+
+@[simp] theorem ordGo_eq_zero (o : Ordering) : ordGo o = 0 ↔ o = .eq := by cases o <;> simp [ordGo]
+
+theorem ordGo_then (a b : Ordering) : ordGo (a.then b) = if ordGo a = 0 then ordGo b else ordGo a := by
+  cases a <;> simp [Ordering.then, ordGo]
+
 /-- `for _, x := range xs { res = append(res, f(x)) }` -/
 theorem foldl_append_singleton {α β : Type} (f : α → β) (xs : List α) (acc : List β) :
     List.foldl (fun st el => st ++ [f el]) acc xs = acc ++ xs.map f := by
+  induction xs generalizing acc with
+  | nil => simp
+  | cons x rest ih => simp [ih]
+
+/-- `for _, x := range xs { res = append(res, f(x)...) }` -/
+theorem foldl_append_flat {α β : Type} (f : α → List β) (xs : List α) (acc : List β) :
+    List.foldl (fun st el => st ++ f el) acc xs = acc ++ xs.flatMap f := by
   induction xs generalizing acc with
   | nil => simp
   | cons x rest ih => simp [ih]
